@@ -2491,6 +2491,25 @@ func (d *Document) parseRun(decoder *xml.Decoder, startElement xml.StartElement)
 				if err := d.skipElement(decoder, t.Name.Local); err != nil {
 					return nil, err
 				}
+			case "fldChar":
+				// 解析域字符（目录、页码等域的 begin/separate/end 标记）
+				run.FieldChar = &FieldChar{FieldCharType: getAttributeValue(t.Attr, "fldCharType")}
+				if err := d.skipElement(decoder, t.Name.Local); err != nil {
+					return nil, err
+				}
+			case "instrText":
+				// 解析域指令文本
+				if run.InstrText == nil {
+					run.InstrText = &InstrText{}
+				}
+				if space := getAttributeValue(t.Attr, "space"); space != "" {
+					run.InstrText.Space = space
+				}
+				content, err := d.readElementText(decoder, "instrText")
+				if err != nil {
+					return nil, err
+				}
+				run.InstrText.Content += content
 			default:
 				if err := d.skipElement(decoder, t.Name.Local); err != nil {
 					return nil, err
